@@ -8,8 +8,9 @@
 From Coq Require Import String List NArith ZArith Bool Lia Permutation.
 From J5V.lib Require Import Outcome Json.
 From J5V.model Require Import CodecTypes CodecDecScalar CodecDec CodecDecTree.
+From J5V.model Require Import CodecDecCommute.
 From J5V.proofs Require Import CodecDecProofs CodecDecStored CodecDecMsgSorted CodecDecSupport CodecDecLocal
-                               CodecDecTreeUnfold CodecDecTreeFuel.
+                               CodecDecTreeUnfold CodecDecTreeFuel CodecDecExposed.
 Import ListNotations.
 Local Open Scope N_scope.
 
@@ -30,13 +31,64 @@ Proof. intros k. reflexivity. Qed.
 Lemma seen_eq_trans a b c : seen_eq a b -> seen_eq b c -> seen_eq a c.
 Proof. intros H1 H2 k. rewrite H1. apply H2. Qed.
 
-Definition props_commute (props : list property) : Prop :=
-  forall p q, In p props -> In q props -> p_json p <> p_json q ->
-    compat (p_path p) (p_siblings p) (p_path q) (p_siblings q).
-
 Section Reorder.
   Variable orc : oracles.
   Variable e : env.
+
+  (* ---------------------------------------------------------------- one member step in terms of pstep *)
+  Lemma pstep_unit_ok path sibs (K : N -> msg -> outcome (msg * unit)) h h' :
+    pstep path sibs K h = Ok (h', tt) <-> conflict_at path sibs h = false /\ omap fst (with_holder path h K) = Ok h'.
+  Proof.
+    unfold pstep, omap. destruct (conflict_at path sibs h); [split; [discriminate|intros [? _]; discriminate]|].
+    destruct (with_holder path h K) as [[h1 []]| | |]; cbn [obind fst]; split; try discriminate;
+      try (intros [_ ?]; discriminate).
+    - intros H. injection H as <-. split; reflexivity.
+    - intros [_ H]. injection H as <-. reflexivity.
+  Qed.
+
+
+  (* any two properties of the object: their paths part into different fields (neither a oneof
+     sibling of the other), or the sets of fields they can touch are disjoint; exposed oneofs have
+     arms with proto paths *)
+  Definition props_commute (props : list property) : Prop :=
+    (forall p, In p props -> prop_ok e p) /\
+    forall p q, In p props -> In q props -> p_json p <> p_json q ->
+      compat (p_path p) (p_siblings p) (p_path q) (p_siblings q) \/
+      disjoint (prop_support e p) (prop_support e q).
+
+  Lemma cstep_unit_ok d f p v h h' :
+    cstep orc e d f p v h = Ok (h', tt) <-> oneof_conflict p h = false /\ tr_present orc e f (d + 1) p v h = Ok h'.
+  Proof.
+    unfold cstep. destruct (oneof_conflict p h); [split; [discriminate|intros [? _]; discriminate]|].
+    destruct (tr_present orc e f (d + 1) p v h); cbn; split; try discriminate; try (intros [_ ?]; discriminate).
+    - intros H. injection H as <-. split; reflexivity.
+    - intros [_ H]. injection H as <-. reflexivity.
+  Qed.
+
+  Lemma cstep_commute d fa fb pa pb va vb :
+    prop_ok e pa -> prop_ok e pb ->
+    compat (p_path pa) (p_siblings pa) (p_path pb) (p_siblings pb) \/ disjoint (prop_support e pa) (prop_support e pb) ->
+    forall h h1 h12, wf h -> cstep orc e d fa pa va h = Ok (h1, tt) -> cstep orc e d fb pb vb h1 = Ok (h12, tt) ->
+    exists h2, cstep orc e d fb pb vb h = Ok (h2, tt) /\ cstep orc e d fa pa va h2 = Ok (h12, tt).
+  Proof.
+    intros Oka Okb [C|D] h h1 h12 W Ha Hb.
+    - assert (Hpatha : p_path pa <> []) by (intros E; rewrite E in C; destruct (p_path pb); destruct C).
+      assert (Hpathb : p_path pb <> []) by (intros E; rewrite E in C; destruct (p_path pa) as [|? [|? ?]]; destruct C).
+      apply cstep_unit_ok in Ha. destruct Ha as [Hca Hpa]. apply cstep_unit_ok in Hb. destruct Hb as [Hcb Hpb].
+      destruct fa as [|fa]; [discriminate|]. destruct fb as [|fb]; [discriminate|].
+      destruct (shape_total orc e fa (d + 1) pa va Hpatha) as [ra Hra Hca' | Ka HKa Hea];
+        [rewrite Hca' in Hpa; subst ra; discriminate|].
+      destruct (shape_total orc e fb (d + 1) pb vb Hpathb) as [rb Hrb Hcb' | Kb HKb Heb];
+        [rewrite Hcb' in Hpb; subst rb; discriminate|].
+      rewrite Hea in Hpa. rewrite Heb in Hpb. rewrite oneof_conflict_at in Hca, Hcb.
+      pose proof (proj2 (pstep_unit_ok _ _ Ka h h1) (conj Hca Hpa)) as Sa.
+      pose proof (proj2 (pstep_unit_ok _ _ Kb h1 h12) (conj Hcb Hpb)) as Sb.
+      destruct (pstep_commute _ _ Ka Kb HKa HKb _ _ C h h1 h12 tt tt W Sa Sb) as (h2 & Sb' & Sa').
+      apply pstep_unit_ok in Sb'. destruct Sb' as [Hcb2 Hpb2]. apply pstep_unit_ok in Sa'. destruct Sa' as [Hca2 Hpa2].
+      rewrite <- Heb in Hpb2. rewrite <- Hea in Hpa2. rewrite <- oneof_conflict_at in Hcb2, Hca2.
+      exists h2. split; apply cstep_unit_ok; split; assumption.
+    - exact (commute _ _ _ _ (cstep_supported orc e d fa pa va Oka) (cstep_supported orc e d fb pb vb Okb) D h h1 h12 tt tt W Ha Hb).
+  Qed.
 
   (* one member of an object body, with whatever fuel *)
   Definition mstep (d : N) (props : list property) (kv : bytes * jvalue) (m : msg) (seen : list bytes)
@@ -80,17 +132,6 @@ Section Reorder.
     - exists (S (f + fr))%nat. rewrite tr_object_S. cbn [fst snd] in Ep, Em. rewrite Ep.
       rewrite (tr_member_more_fuel d p v m seen f fr _ Em). cbn [obind fst snd].
       rewrite Nat.add_comm. apply (tr_object_more_fuel orc e fr f); [exact IH|discriminate].
-  Qed.
-
-  (* ---------------------------------------------------------------- one member step in terms of pstep *)
-  Lemma pstep_unit_ok path sibs (K : N -> msg -> outcome (msg * unit)) h h' :
-    pstep path sibs K h = Ok (h', tt) <-> conflict_at path sibs h = false /\ omap fst (with_holder path h K) = Ok h'.
-  Proof.
-    unfold pstep, omap. destruct (conflict_at path sibs h); [split; [discriminate|intros [? _]; discriminate]|].
-    destruct (with_holder path h K) as [[h1 []]| | |]; cbn [obind fst]; split; try discriminate;
-      try (intros [_ ?]; discriminate).
-    - intros H. injection H as <-. split; reflexivity.
-    - intros [_ H]. injection H as <-. reflexivity.
   Qed.
 
   Lemma tr_member_seen d dp p v m seen seen' r1 s1 :
@@ -170,23 +211,15 @@ Section Reorder.
     destruct (find_prop_In _ _ _ Epa) as [Ina Eka]. destruct (find_prop_In _ _ _ Epb) as [Inb Ekb].
     assert (Hjson : p_json pa <> p_json pb).
     { intros E. rewrite E in Hne. rewrite (proj2 (bytes_eqb_eq (p_json pb) (p_json pb)) eq_refl) in Hne. discriminate. }
-    pose proof (PC pa pb Ina Inb Hjson) as C.
-    assert (Hpatha : p_path pa <> []) by (intros E; rewrite E in C; destruct (p_path pb); destruct C).
-    assert (Hpathb : p_path pb <> []) by (intros E; rewrite E in C; destruct (p_path pa) as [|? [|? ?]]; destruct C).
-    destruct fa as [|fa]; [discriminate|]. destruct fb as [|fb]; [discriminate|].
-    destruct (shape_total orc e fa (d + 1) pa va Hpatha) as [ra Hra Hca' | Ka HKa Hea];
-      [rewrite Hca' in Hpa; subst ra; discriminate|].
-    destruct (shape_total orc e fb (d + 1) pb vb Hpathb) as [rb Hrb Hcb' | Kb HKb Heb];
-      [rewrite Hcb' in Hpb; subst rb; discriminate|].
-    rewrite Hea in Hpa. rewrite Heb in Hpb. rewrite oneof_conflict_at in Hca, Hcb.
-    pose proof (proj2 (pstep_unit_ok _ _ Ka m m1) (conj Hca Hpa)) as Sa.
-    pose proof (proj2 (pstep_unit_ok _ _ Kb m1 m2) (conj Hcb Hpb)) as Sb.
-    destruct (pstep_commute _ _ Ka Kb HKa HKb _ _ C m m1 m2 tt tt W Sa Sb) as (h2 & Sb' & Sa').
-    apply pstep_unit_ok in Sb'. destruct Sb' as [Hcb2 Hpb2]. apply pstep_unit_ok in Sa'. destruct Sa' as [Hca2 Hpa2].
-    rewrite <- Heb in Hpb2. rewrite <- Hea in Hpa2. rewrite <- oneof_conflict_at in Hcb2, Hca2.
+    destruct PC as [Oks PC].
+    pose proof (proj2 (cstep_unit_ok d fa pa va m m1) (conj Hca Hpa)) as Sa.
+    pose proof (proj2 (cstep_unit_ok d fb pb vb m1 m2) (conj Hcb Hpb)) as Sb.
+    destruct (cstep_commute d fa fb pa pb va vb (Oks pa Ina) (Oks pb Inb) (PC pa pb Ina Inb Hjson) m m1 m2 W Sa Sb)
+      as (h2 & Sb' & Sa').
+    apply cstep_unit_ok in Sb'. destruct Sb' as [Hcb2 Hpb2]. apply cstep_unit_ok in Sa'. destruct Sa' as [Hca2 Hpa2].
     exists h2, (p_json pb :: seen), (p_json pa :: p_json pb :: seen). split; [|split].
-    - exists pb, (S fb). split; [exact Epb|]. apply tr_member_build; assumption.
-    - exists pa, (S fa). split; [exact Epa|]. apply tr_member_build; try assumption.
+    - exists pb, fb. split; [exact Epb|]. apply tr_member_build; assumption.
+    - exists pa, fa. split; [exact Epa|]. apply tr_member_build; try assumption.
       cbn [mem_bytes]. rewrite Hsa.
       destruct (bytes_eqb (p_json pa) (p_json pb)) eqn:E; [|reflexivity].
       apply bytes_eqb_eq in E. congruence.
@@ -239,17 +272,51 @@ Proof.
   destruct (a =? b); [apply IH; exact H|exact I].
 Qed.
 
-Lemma props_commute_b_sound props : props_commute_b props = true -> props_commute props.
+Lemma path_support_eq path sibs : path_support path sibs = supp_path path sibs.
+Proof. reflexivity. Qed.
+
+Lemma prop_support_b_eq e p : prop_support_b e p = prop_support e p.
+Proof. reflexivity. Qed.
+
+Lemma prop_ok_b_sound e p : prop_ok_b e p = true -> prop_ok e p.
 Proof.
-  unfold props_commute_b. rewrite forallb_forall. intros H p q Hp Hq Hne.
-  specialize (H p Hp). rewrite forallb_forall in H. specialize (H q Hq).
-  apply orb_prop in H. destruct H as [H|H]; [apply bytes_eqb_eq in H; congruence|].
-  apply compat_b_sound. exact H.
+  unfold prop_ok_b, prop_ok. destruct (p_path p); [|intros _; exact I].
+  destruct (p_ty p); try (intros _; exact I). destruct (lookup e ref) as [[| arms |]|]; try (intros _; exact I).
+  rewrite forallb_forall. intros H a Ha. specialize (H a Ha). unfold nonempty_path in H.
+  destruct (p_path a); [discriminate|discriminate].
+Qed.
+
+Lemma props_commute_b_sound e props : props_commute2_b e props = true -> props_commute e props.
+Proof.
+  unfold props_commute2_b. intros H. apply andb_prop in H. destruct H as [H1 H2]. split.
+  - rewrite forallb_forall in H1. intros p Hp. apply prop_ok_b_sound. apply H1. exact Hp.
+  - rewrite forallb_forall in H2. intros p q Hp Hq Hne.
+    specialize (H2 p Hp). rewrite forallb_forall in H2. specialize (H2 q Hq).
+    apply orb_prop in H2. destruct H2 as [H2|H2].
+    + apply orb_prop in H2. destruct H2 as [H2|H2]; [apply bytes_eqb_eq in H2; congruence|].
+      left. apply compat_b_sound. exact H2.
+    + right. apply disjoint_b_sound. exact H2.
+Qed.
+
+Lemma lookup_In e : forall ref sc, lookup e ref = Some sc -> exists n, In (n, sc) e.
+Proof.
+  induction e as [|[n s0] r IH]; intros ref sc H; [discriminate|]. cbn [lookup] in H.
+  destruct (bytes_eqb n ref).
+  - injection H as <-. exists n. left. reflexivity.
+  - destruct (IH ref sc H) as [n' Hn']. exists n'. right. exact Hn'.
+Qed.
+
+Lemma env_commute_sound e ref props : env_commute e = true ->
+  (lookup e ref = Some (SObject props) \/ lookup e ref = Some (SOneof props)) -> props_commute e props.
+Proof.
+  unfold env_commute. rewrite forallb_forall. intros H Hl.
+  destruct Hl as [Hl|Hl]; destruct (lookup_In e ref _ Hl) as [n Hin]; specialize (H _ Hin); cbn [snd] in H;
+    apply props_commute_b_sound; exact H.
 Qed.
 
 (* ---------------------------------------------------------------- objects, documents *)
 Theorem reordered_object orc e d props ms ms' m seen m' f :
-  props_commute props -> Permutation ms ms' -> wf m ->
+  props_commute e props -> Permutation ms ms' -> wf m ->
   tr_object orc e f d props ms m seen = Ok m' -> exists f', tr_object orc e f' d props ms' m seen = Ok m'.
 Proof.
   intros PC P W H. apply tr_object_of_orun.
@@ -262,7 +329,7 @@ From J5V.proofs Require Import CodecDecTreeProofs.
 (* JSONToProto accepted a document whose root object has the members ms: it accepts every document
    whose root object has the same members in another order, with the same message *)
 Theorem reordered_document orc e root props bs bs' ms ms' rest rest' me me' m' :
-  lookup e root = Some (SObject props) -> props_commute props ->
+  lookup e root = Some (SObject props) -> props_commute e props ->
   lex bs = (tokens_of (JObj ms) ++ rest, me) -> lex bs' = (tokens_of (JObj ms') ++ rest', me') ->
   Permutation ms ms' ->
   decode_bytes orc e root bs = Ok m' -> decode_bytes orc e root bs' = Ok m'.
@@ -283,7 +350,7 @@ Qed.
 
 (* and conversely: a permutation is accepted exactly when the original is *)
 Corollary reordered_document_iff orc e root props bs bs' ms ms' rest rest' me me' :
-  lookup e root = Some (SObject props) -> props_commute props ->
+  lookup e root = Some (SObject props) -> props_commute e props ->
   lex bs = (tokens_of (JObj ms) ++ rest, me) -> lex bs' = (tokens_of (JObj ms') ++ rest', me') ->
   Permutation ms ms' ->
   forall m', decode_bytes orc e root bs = Ok m' <-> decode_bytes orc e root bs' = Ok m'.
